@@ -83,12 +83,13 @@ Fixpoint count_leading_parents (cs : list comp) : nat :=
   | [] => 0
   end.
 
-(* path_by_appending_path: `self.components.len() - upward_moves` is a usize
-   subtraction: underflow panics (debug) — Panic site. *)
+(* path_by_appending_path: `self.components.len().saturating_sub(upward_moves)` — with more `^` than the
+   base has components nothing of the base is kept (as in the reference runtime; the plain usize subtraction
+   that stood here panicked — repaired in /repo 41b08a9; tools/gen_tables.py::gen_path insists on the
+   saturating form).  [-] on nat is the saturating subtraction. *)
 Definition path_append (p q : path) : Res path :=
   let up := count_leading_parents (p_comps q) in
-  if Nat.ltb (length (p_comps p)) up then Panic (T "path.rs:path_by_appending_path:usize underflow")
-  else Ok (path_new (firstn (length (p_comps p) - up)%nat (p_comps p) ++ skipn up (p_comps q)) false).
+  Ok (path_new (firstn (length (p_comps p) - up)%nat (p_comps p) ++ skipn up (p_comps q)) false).
 
 Definition path_append_comp (p : path) (c : comp) : path :=
   path_new (p_comps p ++ [c]) false.
